@@ -18,8 +18,8 @@ def model_check(ctx, module, name, constants, invariants=(), properties=(), view
                 xmx="8g", timeout=1500, constraint=None, spec="Spec", coverage=False):
     wd = ctx.sub("mc-" + name)
     cfg = os.path.join(wd, name + ".cfg")
-    tlc.write_cfg(cfg, spec=spec, constants=constants, invariants=invariants, properties=properties, view=view,
-                  constraint=constraint)
+    tlc.write_cfg(cfg, spec=spec, constants=constants, invariants=invariants, properties=properties,
+                  view=view if view else None, constraint=constraint)
     dot = os.path.join(wd, name + ".dot") if dump else None
     try:
         res = tlc.run_mc(module, cfg, wd, workers=workers, xmx=xmx, timeout=timeout, dump_dot=dot, coverage=coverage)
